@@ -220,3 +220,38 @@ def reactor(substrate, template, strategy="all", invert=False, real_canon=False)
     nc = None if real_canon else NoCanon()
     return SynReactor(substrate=substrate, template=template, invert=invert, canonicaliser=nc, explicit_h=False,
                       implicit_temp=True, strategy=strategy)
+
+
+# ------------------------------------------------------------------------------------------- concrete template families
+FAMILIES = {
+    # centre atoms are carbon with fixed labels (identical typesGH where the chemistry is symmetric); substituent atoms hang
+    # off the centre through unchanged single bonds and carry symbolic labels, so that placements related by a symmetry
+    # of the *centre* are distinguishable on the substrate
+    "2+2": dict(centre=[1, 2, 3, 4], h={1: 1, 2: 1, 3: 1, 4: 1},
+                G=[(1, 2, 2), (3, 4, 2)], H=[(1, 2, 1), (3, 4, 1), (2, 3, 1), (1, 4, 1)], subs=[(5, 1), (6, 3)]),
+    "DA": dict(centre=[1, 2, 3, 4, 5, 6], h={1: 1, 2: 1, 3: 1, 4: 1, 5: 1, 6: 1},
+               G=[(1, 2, 2), (2, 3, 1), (3, 4, 2), (5, 6, 2)], H=[(1, 2, 1), (2, 3, 2), (3, 4, 1), (4, 5, 1), (5, 6, 1), (1, 6, 1)],
+               subs=[(7, 1), (8, 5)]),
+    "ene-shift": dict(centre=[1, 2, 3], h={1: 0, 2: 0, 3: 0},
+                      G=[(1, 2, 2), (2, 3, 1)], H=[(1, 2, 1), (2, 3, 2)], subs=[(4, 1), (5, 3)]),
+}
+
+
+def family_reaction(E, name, sub_els=("C", "O"), sub_hs=(0, 1)):
+    """(G, H) of a concrete reaction family with symbolic substituents; node ids 1..n, atom_map = id."""
+    fam = FAMILIES[name]
+    G, H = nx.Graph(), nx.Graph()
+    for v in fam["centre"]:
+        for g in (G, H):
+            g.add_node(v, element="C", aromatic=False, hcount=fam["h"][v], charge=0, atom_map=v)
+    for s, at in fam["subs"]:
+        el = E.choice("sub%d_el" % s, list(sub_els))
+        h = E.choice("sub%d_h" % s, list(sub_hs))
+        for g in (G, H):
+            g.add_node(s, element=el, aromatic=False, hcount=h, charge=0, atom_map=s)
+            g.add_edge(s, at, order=1)
+    for u, v, o in fam["G"]:
+        G.add_edge(u, v, order=o)
+    for u, v, o in fam["H"]:
+        H.add_edge(u, v, order=o)
+    return G, H
